@@ -449,21 +449,37 @@ def stopEvents {M W : Type} (p : Prog M W) (s : Sys M W) : List (Label W) → Li
 
 /-! ## Second layer: the DAP adapter's stop filter (crates/trust-debug/src/adapter/stop.rs) -/
 
-/-- `StopCoordinator::should_emit_stop` as a pure function of the stop, the `pause_expected` flag
-and the control's current `breakpoint_generation` map: (emit?, new `pause_expected`). -/
-def shouldEmitStop (st : Stop) (pauseExpected : Bool) (gens : List (Nat × Nat)) : Bool × Bool :=
+/-- `is_paused() && last_stop().is_some_and(|last| last.location == stop.location && last.thread_id
+== stop.thread_id && last.breakpoint_generation == stop.breakpoint_generation)` (commit d5a9ac8): the
+runtime is still parked on this very stop.  The three getters take the monitor lock one after the
+other; the model reads them in one step (if the runtime stays parked on the stop across the reads
+they all say so, and if it was resumed in between, a drop is a drop after a resume either way). -/
+def stillParkedOn (d : DState) (st : Stop) : Bool :=
+  d.mode == .paused &&
+  (match d.lastStop with
+   | some last => last.loc == st.loc && last.thread == st.thread && last.gen == st.gen
+   | none => false)
+
+/-- `StopCoordinator::should_emit_stop` as a pure function of the stop, the `pause_expected` flag,
+the control's current `breakpoint_generation` map and the `still_parked` input:
+(emit?, new `pause_expected`). -/
+def shouldEmitStop (st : Stop) (pauseExpected : Bool) (gens : List (Nat × Nat)) (stillParked : Bool) :
+    Bool × Bool :=
   match st.reason with
   | .pause | .entry =>
     -- `if !pause_expected.swap(false)` : dropped when not expected; flag is false afterwards
     (pauseExpected, false)
   | .step => (true, false)
   | .breakpoint =>
+    -- `pause_expected.store(false)` happens before the generation check
     match st.loc with
     | none => (false, false)
     | some l =>
       match st.gen with
       | none => (false, false)
-      | some g => (decide (alookup gens l.file = some g), false)
+      | some g =>
+        -- `if current != Some(generation) && !still_parked { drop }`
+        (decide (alookup gens l.file = some g) || stillParked, false)
 
 /-- Adapter + runtime, abstracted to what matters for "is the client told about a parked runtime":
 the monitor state, whether (and where) the cycle thread is parked, the stop channel (FIFO), the
@@ -518,7 +534,7 @@ def astep (s : ASys) : ALabel → ASys
     match s.chan with
     | [] => s
     | st :: rest =>
-      let r := shouldEmitStop st s.pauseExpected s.d.bpGeneration
+      let r := shouldEmitStop st s.pauseExpected s.d.bpGeneration (stillParkedOn s.d st)
       { s with chan := rest, pauseExpected := r.2,
                emitted := if r.1 then s.emitted ++ [st] else s.emitted,
                clientStopped := s.clientStopped || r.1 }
@@ -541,15 +557,15 @@ cycle thread is parked for good, the client has been told (a `stopped` event aft
 continue/step request). -/
 def ASys.told (s : ASys) : Bool := !s.quiescentParked || s.clientStopped
 
-/-- Guard of the partial adapter theorem: a `setBreakpoints` request is *safe* in a state when it
-only carries breakpoints of the file it names and no Breakpoint stop is waiting in the stop channel
-(i.e. it does not fall between a breakpoint hit and the coordinator's turn). -/
+/-- Guard of the partial adapter theorem: a `continue` / step request is *safe* in a state when no
+Breakpoint stop is still waiting in the stop channel, i.e. the client does not resume a breakpoint
+stop it has not been told about yet.  (Breakpoint changes are unrestricted.) -/
 def ASys.okLabel (s : ASys) : ALabel → Bool
-  | .reqSetBps file bps =>
-    bps.all (fun bp => bp.loc.file == file) && s.chan.all (fun st => st.reason != .breakpoint)
+  | .reqContinue => s.chan.all (fun st => st.reason != .breakpoint)
+  | .reqStep a => !a.isStep || s.chan.all (fun st => st.reason != .breakpoint)
   | _ => true
 
-/-- Every `setBreakpoints` of the run is safe at the moment it is handled. -/
+/-- Every resume request of the run is safe at the moment it is handled. -/
 def ASys.runOk (s : ASys) : List ALabel → Bool
   | [] => true
   | l :: ls => s.okLabel l && ASys.runOk (astep s l) ls
